@@ -267,3 +267,55 @@ def ob_announce(enabled: bool) -> str:
     if not enabled and (sent or created):
         return "announced although the notifier is off"
     return "ok" if enabled else "ok-off"
+
+
+@obligation(funcs=["notifier.NotifyServer.handle_notify"], timeout=(150, 900),
+            bounds="one sender announces ID1 and then disconnects after `cut` bytes of ID2 (cut from {0,1,16,31} by selector); "
+                   "its bytes arrive in <=2 chunks with sizes by selector from {1,31,32,33,48,64}; one receiver")
+def ob_server_sender_disconnects(cutsel: int, csel: List[int]) -> str:
+    """
+    pre: 0 <= cutsel < 4 and len(csel) <= 2 and all(0 <= c < 6 for c in csel)
+    post: _.startswith("ok")
+    """
+    logging.disable(logging.CRITICAL)
+    N.asyncio = _fake_asyncio()
+    srv = N.NotifyServer()
+    cut = pick((0, 1, 16, 31), cutsel)
+    data = ID1 + ID2[:cut]
+    r1, w1 = Reader(data, [pick((1, 31, 32, 33, 48, 64), c) for c in csel]), Writer("p1")
+    w3 = Writer("p3")
+    srv.connections["p3"] = w3
+    _drive(srv.handle_notify(r1, w1))
+    got = b"".join(w3.written)
+    if got != ID1:
+        return "receiver got %d bytes (%s..) for one complete id followed by %d stray bytes" % (len(got), got.hex()[:8], cut)
+    if set(srv.connections) != {"p3"}:
+        return "connections not cleaned up: %r" % (sorted(srv.connections),)
+    return "ok"
+
+
+@obligation(funcs=["storage.db.DBStorage.add_event", "storage.base.BaseStorage.notify_other_processes"], timeout=(150, 600),
+            bounds="SQL backend: an event of kind from {1,0,5,30000} (selector) accepted next to a stored one: the announcement to "
+                   "other workers happens exactly once and only after the transaction that stores it has been committed (a "
+                   "receiving worker looks the id up in the shared database); a duplicate is not announced")
+def ob_announce_after_commit(ksel: int, dup: bool) -> str:
+    """
+    pre: 0 <= ksel < 4
+    post: _.startswith("ok")
+    """
+    logging.disable(logging.CRITICAL)
+    from harness import _sqlstore as S
+    st = S.make_store()
+    kind = pick((1, 0, 5, 30000), ksel)
+    e0 = S.evj(0, False, kind if kind != 5 else 1, 5, [["d", "a"]])
+    S.drive(st.add_event(dict(e0)))
+    st.announced[:] = []
+    new = dict(e0) if dup else S.evj(1, False, kind, 9, [["d", "a"], ["e", S.IDS[0]]])
+    S.drive(st.add_event(dict(new)))
+    if dup:
+        return "ok" if not st.announced else "a duplicate was announced to the other workers"
+    if [a[0] for a in st.announced] != [new["id"]]:
+        return "announced %r for one accepted event" % (st.announced,)
+    if st.announced[0][1] != 0:
+        return "id announced to other workers while its transaction was still open (they cannot load the event yet)"
+    return "ok"
